@@ -119,7 +119,11 @@ func TestC01Rapid(t *testing.T) {
 			g.ElNames = xgen.ElNames2
 			g.Prefixes = []string{"", "p", "q"}
 		}
-		p := g.AxisPath(ctx, xgen.PathOpts{MaxSteps: 4, AbsShare: 4, DSlash: 2})
+		maxSteps := 4
+		if rapid.IntRange(0, 9).Draw(rt, "longpath") == 0 {
+			maxSteps = 8
+		}
+		p := g.AxisPath(ctx, xgen.PathOpts{MaxSteps: maxSteps, AbsShare: 4, DSlash: 2})
 		l := &harness.Live{Property: "C01", Check: "C01/select-set", Doc: doc, Ctx: ctx, AST: p, Expr: xast.Render(p), Flavour: flavourOf(rt)}
 		info, f := oracleC01(l)
 		if f != nil {
